@@ -235,10 +235,15 @@ impl Command for MCmd {
 }
 
 // --------------------------------------------------------------- fact index
+/// `MFI(200)`: every exact query finds a committed value `[9]`; `MFI(201)`: finds nothing; otherwise errors.
 pub struct MFI(pub u8);
 impl Query for MFI {
     fn query(&self, _: &str, _: &[Bytes]) -> Result<Option<Bytes>, StorageError> {
-        Err(any_serr())
+        match self.0 {
+            200 => Ok(Some(Bytes::from([9u8]))),
+            201 => Ok(None),
+            _ => Err(any_serr()),
+        }
     }
     type QueryIterator = core::iter::Empty<Result<Fact, StorageError>>;
     fn query_prefix(&self, _: &str, _: &[Bytes]) -> Result<Self::QueryIterator, StorageError> {
